@@ -199,27 +199,28 @@ class BodyMixin:
             raise BodyParsingError()
         elif markup.error is not None:
             raise markup.error
-        listified = set()
+
+        def put(dct, listified, key, it):
+            if key not in dct:
+                dct[key] = it
+            elif key in listified:
+                dct[key].append(it)
+            else:
+                dct[key] = [dct[key], it]
+                listified.add(key)
+
+        post_lists, forms_lists, files_lists = set(), set(), set()
         for item in FieldStorage.iter_items(body, markup.markups, self.config.max_memfile_size):
             if item.filename:
                 it = FileUpload(
                     item.file, item.name,
                     item.filename, item.headers
                 )
-                dct = files
+                put(files, files_lists, item.name, it)
             else:
                 it = item.value
-                dct = forms
-            key = item.name
-
-            if key in post:
-                el = post[key]
-                if key not in listified:
-                    el = post[key] = dct[key] = [el]
-                    listified.add(key)
-                el.append(it)
-            else:
-                post[key] = dct[key] = it
+                put(forms, forms_lists, item.name, it)
+            put(post, post_lists, item.name, it)
         return post
 
     @cache_in('environ[ ombott.request.forms ]', read_only=True)
